@@ -120,6 +120,8 @@ func Catalogue(env *world.Env) []CatEntry {
 	add("ClaimDeveloperRewards/local", base, uni.Call(A0, S0, vmcommon.BuiltInFunctionClaimDeveloperRewards))
 	add("ClaimDeveloperRewards/async", base, withType(uni.Call(A0, S0, vmcommon.BuiltInFunctionClaimDeveloperRewards), vmcommon.AsynchronousCall))
 	add("ClaimDeveloperRewards/remote-sender-side", base, uni.Call(A0, S1, vmcommon.BuiltInFunctionClaimDeveloperRewards))
+	add("ClaimDeveloperRewards/contract-owner-local", base, uni.Call(S0, uni.T0, vmcommon.BuiltInFunctionClaimDeveloperRewards))
+	add("ChangeOwnerAddress/contract-owner-local", base, uni.Call(S0, uni.T0, vmcommon.BuiltInFunctionChangeOwnerAddress, B0))
 	add("SetUserName/local", base, uni.Call(uni.D0, B0, vmcommon.BuiltInFunctionSetUserName, []byte("name")))
 	add("SetUserName/forward", base, uni.Call(uni.D0, C1, vmcommon.BuiltInFunctionSetUserName, []byte("name")))
 	delivery("SetUserName/delivery", base, uni.Call(uni.D0, C1, vmcommon.BuiltInFunctionSetUserName, []byte("name")))
